@@ -26,7 +26,7 @@ verus! {
 //@   loops 1
 //@   loop 0 iter_name it
 //@   loop 0 invariant [C05.ts_enum.loop.iter] it.seq().len() == enum_def.values@.len() && 0 <= it.index@ <= it.seq().len() && (forall|i: int| 0 <= i < it.seq().len() ==> *it.seq()[i] == enum_def.values@[i])
-//@   loop 0 invariant [C05.ts_enum.loop.frame] crate::extends_errs(old(result)@, result@)
+//@   loop 0 invariant [C05.ts_enum.loop.frame] crate::extends_errs(old(result)@, result@) && crate::schema_wf(&definitions.type_system)
 //@   loop 0 invariant [C05.ts_enum.loop.seen] crate::seen_ok(crate::names_view(seen_values), crate::enum_names(enum_def), it.index@ as int)
 //@   loop 0 invariant [C05.ts_enum.loop.exact] (result@.len() == old(result)@.len()) <==> crate::enum_ok_upto(enum_def, definitions, it.index@ as int)
 //@   hint before 0 "let mut seen_values = vec![];" :: [C05.ts_enum.h_init] proof { crate::axiom_str_obeys(); crate::lemma_seen_init(crate::enum_names(enum_def)); }
